@@ -144,6 +144,46 @@ example : AFM.read smallTextIndented = AFM.read smallText ∧
      | .ok m => decide (m.glyphs.length = 2) && decide (m.kern = [⟨[65], [66], -20⟩])
      | _ => false) = true := by decide +kernel
 
+/-! ### `Write` does not depend on the order in which the glyphs are listed (`FontBBoxPDF` fix) -/
+
+/-- `FontBBoxPDF` visits the glyphs in ascending order of their names: two lists of the same glyphs
+(distinct names) give the same box -/
+theorem fontBBox_order_independent (m1 m2 : Metrics) (hp : m1.glyphs.Perm m2.glyphs)
+    (hnd : (m2.glyphs.map (·.1)).Nodup) : fontBBox m1 = fontBBox m2 := by
+  unfold fontBBox
+  rw [sortByName_perm m1.glyphs m2.glyphs hp hnd]
+
+/-- two metrics values that differ only in the order of their glyph lists (the same map) are written
+to the same text: the `FontBBox` line, the glyph count, the order and the content of the glyph lines -/
+theorem write_order_independent (m1 m2 : Metrics) (hp : m1.glyphs.Perm m2.glyphs)
+    (hnd : (m2.glyphs.map (·.1)).Nodup) (hrest : { m2 with glyphs := m1.glyphs } = m1) :
+    write m1 = write m2 := by
+  rw [← hrest]
+  exact write_perm m2 m1.glyphs hp hnd
+
+/-- for the values the reader returns (sorted lists) `fontBBox` is the plain fold over the list -/
+theorem fontBBox_of_sorted (m : Metrics) (h : Sorted m.glyphs) :
+    fontBBox m = (m.glyphs.map (fun g => g.2.bbox)).foldl Rect.extend Rect.zero := by
+  unfold fontBBox
+  rw [sortByName_of_sorted m.glyphs h]
+
+/-- three degenerate boxes: `A: B 1 1 0 0`, `B: B 0 0 -1 -1`, `C: B 5 5 6 6` -/
+def boxGlyphs : List (Bytes × Glyph) :=
+  [([65], { widthX := 0, bbox := ⟨ofInt 1, ofInt 1, ofInt 0, ofInt 0⟩, ligs := [] }),
+   ([66], { widthX := 0, bbox := ⟨ofInt 0, ofInt 0, ofInt (-1), ofInt (-1)⟩, ligs := [] }),
+   ([67], { widthX := 0, bbox := ⟨ofInt 5, ofInt 5, ofInt 6, ofInt 6⟩, ligs := [] })]
+
+/-- the same glyphs listed as C, A, B -/
+def boxGlyphs' : List (Bytes × Glyph) := [boxGlyphs[2], boxGlyphs[0], boxGlyphs[1]]
+
+/-- in name order A, B, C the union of A and B is `0 0 0 0`, which counts as empty, so the result is
+C's box `5 5 6 6` – for both list orders (folding C, A, B in list order would give `0 0 6 6`) -/
+example :
+    fontBBox { emptyMetrics with glyphs := boxGlyphs } = ⟨ofInt 5, ofInt 5, ofInt 6, ofInt 6⟩ ∧
+    fontBBox { emptyMetrics with glyphs := boxGlyphs' } = ⟨ofInt 5, ofInt 5, ofInt 6, ofInt 6⟩ ∧
+    (boxGlyphs'.map (fun g => g.2.bbox)).foldl Rect.extend Rect.zero = ⟨ofInt 0, ofInt 0, ofInt 6, ofInt 6⟩ := by
+  decide +kernel
+
 /-- what a cycle keeps: all names and text fields, the encoding, the kerning pairs, the flag, and of
 each glyph its name, width and ligatures -/
 theorem roundM_keeps (m : Metrics) :
@@ -204,6 +244,9 @@ theorem roundM_representable (m : Metrics) (h : Representable m) : roundM m = m 
 #print axioms indented_EndCharMetrics
 #print axioms indented_EndCharMetrics_ascii
 #print axioms indented_line
+#print axioms fontBBox_order_independent
+#print axioms write_order_independent
+#print axioms fontBBox_of_sorted
 #print axioms roundM_keeps
 #print axioms roundM_numbers
 #print axioms exampleMetrics_representable
